@@ -4,6 +4,7 @@ import (
 	"bytes"
 	"fmt"
 	"go/ast"
+	"go/parser"
 	"go/printer"
 	"go/token"
 	"go/types"
@@ -63,6 +64,15 @@ func goEnv() []string {
 // extraEnv may carry GOOS/GOARCH. Any load or type error is fatal (exit 2): a tree that
 // does not type-check is never reported as "held".
 func Load(mode packages.LoadMode, overlay map[string][]byte, extraEnv []string, patterns ...string) *Prog {
+	p, err := LoadE(mode, overlay, extraEnv, patterns...)
+	if err != nil {
+		fatalf("%v", err)
+	}
+	return p
+}
+
+// LoadE is Load returning errors instead of exiting (used for overlay mutants that may not compile).
+func LoadE(mode packages.LoadMode, overlay map[string][]byte, extraEnv []string, patterns ...string) (*Prog, error) {
 	fset := token.NewFileSet()
 	cfg := &packages.Config{
 		Mode:    mode,
@@ -74,28 +84,30 @@ func Load(mode packages.LoadMode, overlay map[string][]byte, extraEnv []string, 
 	}
 	pkgs, err := packages.Load(cfg, patterns...)
 	if err != nil {
-		fatalf("load: %v", err)
+		return nil, fmt.Errorf("load: %v", err)
 	}
 	p := &Prog{Fset: fset, Pkgs: map[string]*packages.Package{}, funcs: map[*types.Func]*FuncCtx{}, lits: map[*ast.FuncLit]*FuncCtx{}, Overlay: overlay}
 	nerr := 0
 	packages.Visit(pkgs, nil, func(pkg *packages.Package) {
 		for _, e := range pkg.Errors {
-			fmt.Fprintf(os.Stderr, "load error: %s: %v\n", pkg.PkgPath, e)
+			if overlay == nil {
+				fmt.Fprintf(os.Stderr, "load error: %s: %v\n", pkg.PkgPath, e)
+			}
 			nerr++
 		}
 		p.Pkgs[pkg.PkgPath] = pkg
 	})
 	if nerr > 0 {
-		fatalf("load: %d package errors", nerr)
+		return nil, fmt.Errorf("load: %d package errors", nerr)
 	}
 	if len(pkgs) == 0 {
-		fatalf("load: no packages matched %v", patterns)
+		return nil, fmt.Errorf("load: no packages matched %v", patterns)
 	}
 	p.All = pkgs
 	sort.Slice(p.All, func(i, j int) bool { return p.All[i].PkgPath < p.All[j].PkgPath })
 	for _, pkg := range pkgs {
 		if pkg.Syntax == nil || pkg.TypesInfo == nil {
-			fatalf("load: package %s has no syntax/type info", pkg.PkgPath)
+			return nil, fmt.Errorf("load: package %s has no syntax/type info", pkg.PkgPath)
 		}
 		for _, f := range pkg.Syntax {
 			for _, d := range f.Decls {
@@ -105,10 +117,18 @@ func Load(mode packages.LoadMode, overlay map[string][]byte, extraEnv []string, 
 			}
 		}
 	}
-	return p
+	return p, nil
 }
 
+// anchorPanic is raised by Func when an anchor does not resolve while analysing a mutant.
+type anchorPanic struct{ msg string }
+
+var inMutant bool
+
 func fatalf(format string, args ...any) {
+	if inMutant {
+		panic(anchorPanic{fmt.Sprintf(format, args...)})
+	}
 	fmt.Fprintf(os.Stderr, "ssverif: fatal: "+format+"\n", args...)
 	os.Exit(2)
 }
@@ -216,6 +236,17 @@ func (p *Prog) CtxOfObj(fn *types.Func) *FuncCtx {
 		if f.Pos() <= fn.Pos() && fn.Pos() <= f.End() {
 			for _, d := range f.Decls {
 				if fd, ok := d.(*ast.FuncDecl); ok && fd.Body != nil && pkg.TypesInfo.Defs[fd.Name] == fn {
+					return p.ctxOfDecl(pkg, fd)
+				}
+			}
+		}
+	}
+	// the object may come from another copy of the package's type information (overlay re-check): match by name
+	want := fn.FullName()
+	for _, f := range pkg.Syntax {
+		for _, d := range f.Decls {
+			if fd, ok := d.(*ast.FuncDecl); ok && fd.Body != nil && fd.Name.Name == fn.Name() {
+				if o, ok := pkg.TypesInfo.Defs[fd.Name].(*types.Func); ok && o.FullName() == want {
 					return p.ctxOfDecl(pkg, fd)
 				}
 			}
@@ -372,3 +403,91 @@ func mp(rel string) string {
 	}
 	return modPath + "/" + rel
 }
+
+// Recheck re-parses and re-type-checks base's root packages with the given file overlay,
+// entirely in memory: imports outside the roots are satisfied by the type information base
+// already holds, roots importing an edited root are re-checked against the edited one.
+func Recheck(base *Prog, overlay map[string][]byte) (*Prog, error) {
+	fset := base.Fset // append-only: re-parsed files are added under the same names
+	np := &Prog{Fset: fset, Pkgs: map[string]*packages.Package{}, funcs: map[*types.Func]*FuncCtx{}, lits: map[*ast.FuncLit]*FuncCtx{}, Overlay: overlay}
+	known := map[string]*types.Package{}
+	var walk func(tp *types.Package)
+	walk = func(tp *types.Package) {
+		if tp == nil || known[tp.Path()] != nil {
+			return
+		}
+		known[tp.Path()] = tp
+		for _, ip := range tp.Imports() {
+			walk(ip)
+		}
+	}
+	for _, pkg := range base.All {
+		walk(pkg.Types)
+	}
+	var firstErr error
+	for _, pkg := range base.All {
+		edited := false
+		for _, fn := range pkg.CompiledGoFiles {
+			if _, ok := overlay[fn]; ok {
+				edited = true
+			}
+		}
+		if !edited {
+			// untouched root: reuse as is (its references to an edited package keep pointing at the
+			// unedited type objects; cross-package matching in the rules is by name)
+			np.Pkgs[pkg.PkgPath] = pkg
+			np.All = append(np.All, pkg)
+			continue
+		}
+		var files []*ast.File
+		for _, fn := range pkg.CompiledGoFiles {
+			var src any
+			if b, ok := overlay[fn]; ok {
+				src = b
+			}
+			f, err := parser.ParseFile(fset, fn, src, parser.ParseComments|parser.SkipObjectResolution)
+			if err != nil {
+				return nil, err
+			}
+			files = append(files, f)
+		}
+		info := &types.Info{
+			Types: map[ast.Expr]types.TypeAndValue{}, Defs: map[*ast.Ident]types.Object{}, Uses: map[*ast.Ident]types.Object{},
+			Implicits: map[ast.Node]types.Object{}, Instances: map[*ast.Ident]types.Instance{}, Scopes: map[ast.Node]*types.Scope{},
+			Selections: map[*ast.SelectorExpr]*types.Selection{}, FileVersions: map[*ast.File]string{},
+		}
+		conf := types.Config{
+			Sizes:     pkg.TypesSizes,
+			GoVersion: "go1.26",
+			Importer: importerFunc(func(path string) (*types.Package, error) {
+				if path == "unsafe" {
+					return types.Unsafe, nil
+				}
+				if tp, ok := known[path]; ok {
+					return tp, nil
+				}
+				return nil, fmt.Errorf("import %s not available", path)
+			}),
+			Error: func(err error) {
+				if firstErr == nil {
+					firstErr = err
+				}
+			},
+		}
+		tp, _ := conf.Check(pkg.PkgPath, fset, files, info)
+		npkg := &packages.Package{ID: pkg.ID, Name: pkg.Name, PkgPath: pkg.PkgPath, CompiledGoFiles: pkg.CompiledGoFiles, GoFiles: pkg.GoFiles,
+			Syntax: files, Types: tp, TypesInfo: info, TypesSizes: pkg.TypesSizes, Fset: fset}
+		np.Pkgs[pkg.PkgPath] = npkg
+		np.All = append(np.All, npkg)
+	}
+	if firstErr != nil {
+		return nil, firstErr
+	}
+	sort.Slice(np.All, func(i, j int) bool { return np.All[i].PkgPath < np.All[j].PkgPath })
+	np.NFuncs = base.NFuncs
+	return np, nil
+}
+
+type importerFunc func(path string) (*types.Package, error)
+
+func (f importerFunc) Import(path string) (*types.Package, error) { return f(path) }
